@@ -122,6 +122,7 @@ def c05(repo, rep):
         M.r14(repo, rep)                     # "initially recovered nodes ... are never infected later" (percolation-based runs)
     M.initial_record_rule(repo, rep)   # the initial condition is recorded at tmin
     X.shared_value_rule(repo, rep, ["simulation"], T.SIMULATORS)   # per-node histories / per-edge delays are separate objects / draws
+    M.full_data_handoff(repo, rep)     # get_statuses(time=tmin): the tables the histories are built from hold every initial I / R node
 
 
 def c06(repo, rep):
